@@ -21,6 +21,7 @@ func TestVerifReplay(t *testing.T) {
 		"Verif_C13_Tables":           Verif_C13_Tables,
 		"Verif_C13_Imports":          Verif_C13_Imports,
 		"Verif_C13_TablesGeneric":    Verif_C13_TablesGeneric,
+		"Verif_C13_TablesMany":       Verif_C13_TablesMany,
 		"Verif_C12_Attribution":      Verif_C12_Attribution,
 		"Verif_C12_AttributionDecls": Verif_C12_AttributionDecls,
 		"Verif_C12_DocText":          Verif_C12_DocText,
